@@ -513,5 +513,39 @@ def rule_who_writes(ctx):
                "StateMachine.%s is also written by %s (allowed: %s)" % (k, sorted(extra), sorted(allowed[k])))
 
 
+VOTE_STATE = ("view_number", "phase", "high_vote")
+
+
+def rule_never_dirty(ctx):
+    R = "C03.11"
+    ctx.rule(R, "vote-relevant state is never left dirty: after every write to view_number / phase / high_vote (outside the constructor) a successful return is reachable only through the success of the awaited backup - otherwise the durable record lags the replica's memory and a restart forgets a vote or a view")
+    P = persist_like(ctx)
+    n = 0
+    for f in bft_bodies(ctx):
+        rq = root_fn(f).qname
+        if rq.endswith("StateMachine::start"):
+            continue
+        wr = {}
+        for bb in range(len(f.blocks)):
+            for names, kind, node in Q.stmt_field_writes(f, bb, SM):
+                for x in names & set(VOTE_STATE):
+                    wr.setdefault(x, []).append((bb, node.get("ln")))
+        if not wr:
+            continue
+        edges = Q.success_edges(ctx, f, lambda b: Q.is_await_of(b, P))
+        cfg = ctx.cfg(f, with_cancel=False)
+        rets = set(bb for bb, how in Q.return_blocks_maybe_ok(ctx, f))
+        for field, sites in sorted(wr.items()):
+            for bb, ln in sites:
+                n += 1
+                r = cfg.reach_from([bb], avoid_edges=frozenset(edges))
+                # the write's own block may contain the persist call's poll loop only after the statement: reach_from starts at the block
+                bad = sorted(rets & r)
+                ctx.ob(R, "%s := .. in %s" % (field, rq.split("::")[-1]), not bad and bool(edges),
+                       "every successful return after the write passes the backup's success" if not bad and edges else
+                       "self.%s is changed and the function can return successfully without a later successful state backup (the persisted state no longer records what the replica did)" % field, f.loc(ln))
+    ctx.floor(R, "writes of vote-relevant fields", n, 6)
+
+
 RULES = [("C03.1", rule_persist_before_send), ("C03.2", rule_backup_reaches_engine), ("C03.3", rule_no_write_between),
-         ("C03.4", rule_backup_restore_agree), ("C03.10", rule_proposals_roundtrip), ("C03.6", rule_recorded_vote), ("C03.7", rule_timeout), ("C03.9", rule_who_writes)]
+         ("C03.4", rule_backup_restore_agree), ("C03.10", rule_proposals_roundtrip), ("C03.6", rule_recorded_vote), ("C03.7", rule_timeout), ("C03.9", rule_who_writes), ("C03.11", rule_never_dirty)]
